@@ -233,7 +233,41 @@ fn primitive_surfaces(rep: &Report, ids: &[Ident]) {
         }
         rep.nontrivial(format!("noise-payload-{}", pl).as_bytes());
     });
-    rep.sample(json!({"surface":"noise_decrypt","input":"every message length 0..200, 65535, 65536, 70000 x {zeros, authentic prefix, authentic then zeros}; authentic handshakes with every payload length 0..80"}));
+    // handshakes that authenticate up to the static-key field but carry a special (small-order / non-canonical) point as
+    // ephemeral key or as the encrypted sender key
+    for (name, pt) in crate::c19::special_points() {
+        for variant in ["sender-skip-ss", "sender-ss-zero", "ephemeral-es-zero"] {
+            let mut roles = r::XRoles::honest(&r::KEY_MAGIC, &ids[0].sk, &rc.pk, &derive32(seed, "c09-ne3"));
+            match variant {
+                "sender-skip-ss" => {
+                    roles.s_pub = pt;
+                    roles.skip_ss = true;
+                }
+                "sender-ss-zero" => {
+                    roles.s_pub = pt;
+                    roles.ss_override = Some([0u8; 32]);
+                }
+                _ => {
+                    roles.e_pub = pt;
+                    roles.es_override = Some([0u8; 32]);
+                }
+            }
+            if let Some(m) = r::noise_x_write(&roles, &pay) {
+                let _ = no_panic(rep, "noise_decrypt", || json!({"kind":"noise-special","point":name,"variant":variant}), || kestrel_crypto::noise_decrypt(&rc.private(), &rc.public(), &r::KEY_MAGIC, &m.message).is_ok());
+                // and through the file entry point
+                let mut f = r::KEY_MAGIC.to_vec();
+                f.extend_from_slice(&m.message);
+                f.extend_from_slice(&[0u8; 40]);
+                rep.eval(1);
+                let (res, _) = run_plain(&Subject::KeyDec { r: hx(&rc.sk), r_pub: hx(&rc.pk) }, &f);
+                if let Res::Panic(msg) = res {
+                    rep.violation("file/panic", json!({"kind":"noise-special","point":name,"variant":variant}), format!("key_decrypt panicked on a file whose handshake carries {} ({}): {}", name, variant, msg));
+                }
+                rep.nontrivial(format!("noise-special-{}-{}", name, variant).as_bytes());
+            }
+        }
+    }
+    rep.sample(json!({"surface":"noise_decrypt","input":"every message length 0..200, 65535, 65536, 70000 x {zeros, authentic prefix, authentic then zeros}; authentic handshakes with every payload length 0..80; handshakes carrying each of 52 special points as ephemeral or sender key"}));
     // AEAD: every length 0..80
     let key = derive32(seed, "c09-aead");
     let auth = r::aead_seal(&key, &[0u8; 12], b"ad", &plaintext(seed, 64));
@@ -327,6 +361,30 @@ fn string_surfaces(rep: &Report) {
         });
     }
     rep.extra("key_strings", json!(n));
+    // keyring text surface: long lines / long names made of multi-byte characters in every line role (the token-sequence
+    // enumeration of the parser lives in C17)
+    let mut texts: Vec<String> = vec![];
+    for role in ["", "Name = ", "# ", "PublicKey = ", "PrivateKey = ", "[Key]"] {
+        for mb in ["x", "\u{e9}", "\u{20ac}", "\u{1F600}"] {
+            for pre in 0..4usize {
+                for total in [0usize, 1, 31, 32, 33, 40, 64, 100, 127, 128, 129, 130, 160, 200, 260, 1000] {
+                    let nrep = total.saturating_sub(pre) / mb.len();
+                    let line = format!("{}{}{}", role, "y".repeat(pre.min(total)), mb.repeat(nrep));
+                    texts.push(line.clone());
+                    texts.push(format!("[Key]\n{}\nPublicKey = {}\n", line, pk));
+                    texts.push(format!("[Key]\nName = ok\nPublicKey = {}\n{}\n", pk, line));
+                }
+            }
+        }
+    }
+    texts.sort();
+    texts.dedup();
+    let nt = texts.len();
+    texts.par_iter().for_each(|t| {
+        let _ = no_panic(rep, "Keyring::new", || json!({"kind":"keyring-text","text":t}), || Keyring::new(t).is_ok());
+        rep.nontrivial(t.as_bytes());
+    });
+    rep.extra("keyring_texts", json!(nt));
     rep.sample(json!({"surface":"encoded keys","input":"every length 0..130 of each character class {base64, '=', '-', '_', space, NUL, 2- and 4-byte UTF-8, newline}; single-character substitutions of valid strings"}));
 }
 
